@@ -19,14 +19,14 @@ CLAIMED = {
              "with default (non-recursive, non-robust) attributes; "
              "spinlock acquire protocol (CAS FREE->HELD, expected value provably FREE at every evaluation, order >= ACQUIRE, "
              "loop left only on CAS success), release protocol (release store / full barrier), lock/unlock state-encoding "
-             "agreement, for the c11, sync and sim models. " + DECIDES % "C01",
+             "agreement, for the c11, sync and sim models; lock objects zero-filled at birth. " + DECIDES % "C01",
         technique="path-sensitive CFG dataflow over clang AST facts: wrapper-wiring check, reaching constant of the CAS expected value, memory-order lattice"),
     "C04": dict(
         text="Rules C04.1-C04.4 over all 16 p_atomic_* operations in the c11, sync and sim models (48 instances): symbolic "
              "evaluation of every CFG path with a semantics table for the __atomic/__sync builtins, comparing the stored and the "
              "returned value with the operation's specification term (fetch-vs-op-fetch, operand order of compare-exchange, "
              "dec_and_test polarity, SEQ_CST orders, strong CAS); indivisibility from the per-path event trace (one builtin and no "
-             "plain access; sync get/set barrier side; sim: every access inside the one global mutex, balanced); operand width. " + DECIDES % "C04",
+             "plain access; sync get/set barrier side; sim: every access inside the one global mutex, balanced, and that mutex is created by thread_init whenever it does not exist); operand width. " + DECIDES % "C04",
         technique="symbolic term evaluation of each operation against a specification term + per-path event-trace discipline (lock coverage, barrier side, single RMW)"),
     "C02": dict(
         text="Rules C02.1-C02.6. posix model: six wrappers wired to the right pthread_rwlock call (through their static helper), "
@@ -36,7 +36,7 @@ CLAIMED = {
              "held mutex, is registered in the waiter field the waker tests, and is followed by a re-evaluation of the admission "
              "predicate before the lock is granted; readers are admitted only with the writer field known zero, writers only with the "
              "whole counter zero; field masks/shifts agree across all functions; unlock wakes what becomes grantable (read_cv only by "
-             "broadcast). " + DECIDES % "C02",
+             "broadcast); the lock object is zero-filled at allocation (its counters are never stored by the constructor). " + DECIDES % "C02",
         technique="wrapper-wiring check; term-valued path-sensitive dataflow with mutex typestate, epoch reset at condition waits, packed-field classification and wake-obligation check at returns"),
     "C03": dict(
         text="Rules C03.1-C03.3: wait/signal/broadcast call pthread_cond_wait/signal/broadcast on &cond->hdl, TRUE iff 0, no cross-wiring "
@@ -50,7 +50,7 @@ CLAIMED = {
              "the error channel POSIX defines for the call' (errno, or the return value for clock_nanosleep) every feasible path re-issues "
              "the same call before any function exit (paths leaving through the genuine failure of a different fallible call are excused); "
              "the sleep is re-issued with the remainder the call filled in and 0 is returned only after the call returned 0; close() is not "
-             "retried; EALREADY, the answer to a connect re-issued after EINTR, is classified IN_PROGRESS by the errno table (C19.5). " + DECIDES % "C19",
+             "retried; EALREADY, the answer to a connect re-issued after EINTR, is classified IN_PROGRESS by the errno table (C19.5); a call that returned success is never re-issued whatever errno holds; clock_nanosleep is used in relative mode. " + DECIDES % "C19",
         technique="scenario-seeded path-sensitive guard dataflow from each blocking call site (must-reach-retry-before-exit), POSIX error-channel table"),
     "C09": dict(
         text="Rules C09.1-C09.6 on psocket.c/perror.c: every interruptible call site re-issues the call after EINTR; on a blocking socket a "
@@ -60,7 +60,7 @@ CLAIMED = {
              "into (recvfrom, getsockname, getpeername, accept) holds a sockaddr_in6 with its length object initialised accordingly; SIGPIPE is ignored at library "
              "initialisation or MSG_NOSIGNAL is passed; EAGAIN/EWOULDBLOCK/EINPROGRESS map to the codes the retry logic tests; connected is "
              "set only after connect==0 or wait+SO_ERROR==0, and SO_ERROR is read only on paths carrying the fact that the writability "
-             "wait succeeded. " + DECIDES % "C09",
+             "wait succeeded; a condition wait that returned TRUE is followed by the native call, one that returned FALSE by a failure return. " + DECIDES % "C09",
         technique="scenario-seeded guard dataflow per call site (EINTR / would-block), alias-based result provenance, switch-table recovery, type-width check of the length path"),
     "C10": dict(
         text="Rules C10.1-C10.6 on psocket.c (C10.5 includes: a flag stored into a bit-field narrower than its source is normalised to 0/1): every read of socket->fd in an operation is reached only after the closed test passed "
@@ -69,7 +69,7 @@ CLAIMED = {
              "in the would-block scenario; the descriptor inside a PSocket is always non-blocking (the one fcntl(F_SETFL) setter ORs O_NONBLOCK when asked for blocking=FALSE, and every "
              "constructor that installs a descriptor passes through it with FALSE before returning the object); poll gets the socket timeout when positive else a negative constant, fixed before the retry loop, "
              "0 -> TIMED_OUT, 1 -> TRUE, and a poll that returned 0 or 1 is never re-issued (whatever errno holds); getters return the field their setter writes; socket()/accept() descriptors get close-on-exec on "
-             "every success path. " + DECIDES % "C10",
+             "every success path; shutdown () gets SHUT_RDWR / SHUT_RD / SHUT_WR exactly for both / read / write and connected is cleared after both." + COMMON + DECIDES % "C10",
         technique="guard dataflow with dominance of the closed check, scenario flows (non-blocking would-block, successful creation), term evaluation of the poll timeout, field-agreement of getters/setters"),
     "C06": dict(
         text="Rules C06.1-C06.5. C06.1-C06.4 on psemaphore-posix.c: name typestate in the create path (exclusive create first; never a plain open of a name "
@@ -78,7 +78,7 @@ CLAIMED = {
              "ownership, close always / unlink only when owner, acquire/release wiring with exact result mapping, key identity (the key derivation in pipc.c refers to no static or global variable, so concurrent opens of different names cannot meet). C06.5 on psemaphore-sysv.c (not selectable in the Linux build, "
              "analysed with the POSIX unit's flags): semop -1 / +1 on semaphore 0 from constant sembuf objects, blocking, with the same undo flag "
              "in both directions, every semop retried on EINTR; exclusive semget first, ownership only on its success, SETVAL exactly when owned or "
-             "in CREATE mode, IPC_RMID only by the owner. " + DECIDES % "C06",
+             "in CREATE mode, IPC_RMID only by the owner, id tests separate exactly -1 from the valid ids. The constructor records mode and initial value before the create path runs and sizes the name buffer for name + suffix + NUL." + COMMON + DECIDES % "C06",
         technique="path-sensitive typestate over the IPC name (unknown/exists/absent) with guard facts on mode and errno; wiring and who-writes-field checks"),
     "C07": dict(
         text="Rules C07.1-C07.6. C07.1-C07.5 on pshm-posix.c: mmap parameters (MAP_SHARED, offset 0, shm_open descriptor, size field, protection by "
@@ -86,7 +86,7 @@ CLAIMED = {
              "flag, unlink only when owner); descriptor closed exactly once on every path; lock semaphore on the same key with value 1 and "
              "CREATE iff creator, lock/unlock wiring; the field munmap uses as length equals the mapped length and is frozen while mapped. C07.6 on pshm-sysv.c (analysed with "
              "the POSIX unit's flags): exclusive shmget with the requested size first, plain lookup with size 0 otherwise, reported size from "
-             "shm_segsz, lock semaphore CREATE exactly for the creator, IPC_RMID only with no attachment left, lock/unlock wiring. " + DECIDES % "C07",
+             "shm_segsz, lock semaphore CREATE exactly for the creator, IPC_RMID only with no attachment left, lock/unlock wiring, id tests separate exactly -1 from the valid ids." + COMMON + DECIDES % "C07",
         technique="path-sensitive typestate (descriptor open/closed, role creator/follower, size provenance) with guard facts; frozen-field rule between mmap and munmap"),
     "C08": dict(
         text="Rules C08.1-C08.8 on pshmbuffer.c (+ the reported-size half of C08.4 on pshm-posix.c): every segment access and every call of "
@@ -96,12 +96,13 @@ CLAIMED = {
              "negative subtraction (linear normaliser, no solver); contiguous copy only under start+n<=size, wrapped copy lengths/offsets "
              "identities, copied total == position advance; clear zero-fills from offset 0 over the whole reported segment (at least the "
              "header holding both positions); the ring modulus derives only from the size the shm layer reports; opening, freeing or taking ownership of a handle never touches the segment's memory (C08.7); "
-             "no conversion narrows a position, size or length except into the documented pint result (C08.8). One known "
+             "no conversion narrows a position, size or length except into the documented pint result (C08.8); clear performs its fill on every path with a mapped segment and the lock granted; error-reporting paths return failure. One known "
              "finding (reported size of an existing segment depends on the opener's argument). " + DECIDES % "C08",
         technique="term-valued path-sensitive dataflow with lock typestate; linear-form normalisation of the space/copy identities over the finite set of position orderings"),
     "C05": dict(
         text="Rules C05.1-C05.5 on puthread.c / puthread-posix.c (C05.3 includes: the native detach state handed to pthread_attr_setdetachstate agrees with the joinable flag on every path, and pthread_detach is never called afterwards; "
-             "C05.2 includes: p_uthread_free_internal is reached from p_uthread_unref only and the creating function never releases the handle of a thread it has started): native create and all initialising stores under the creation spinlock, "
+             "C05.2 includes: p_uthread_free_internal is reached from p_uthread_unref only, the creating function never releases the handle of a thread it has started, and the native constructor releases it only "
+             "after the last pthread_create on the path failed; C05.1 includes: p_uthread_init creates the creation spinlock and the TLS slot whenever they do not exist): native create and all initialising stores under the creation spinlock, "
              "the new thread reads creator-initialised fields only after passing it; created handles start with 2 references, adopted "
              "with 1, ref_count otherwise only through atomic inc/dec_and_test, release exactly when dec_and_test is TRUE, own reference "
              "dropped by the destructor of the library TLS slot, and a function that drops the handle it read from that slot clears the slot "
@@ -120,7 +121,8 @@ CLAIMED = {
              "high-part accounting; block-size constants agree with the buffer's byte size and the padding constants satisfy the "
              "standard identity; reset re-initialises every field update/finish write; possibly-aliasing padding stores OR their bits "
              "in; the carry-out predicate of a multi-word addition with carry-in equals the true carry on every feasible ordering class "
-             "of (sum, operands, carry-in). " + DECIDES % "C11",
+             "of (sum, operands, carry-in); reset re-initialises and reopens on every path with a hash object, whatever its state; every subscript of a fixed-size array with a known largest index (loop stride "
+             "taken into account) stays inside the array. " + DECIDES % "C11",
         technique="switch / if-chain / constant-table dispatch recovery, exit typestate with guard dataflow at slot calls, linear index evaluation of the encoder loop, typed-AST narrowing rule with sibling cross-check, constant-geometry agreement with record layouts, transitive field write sets, index-aliasing rule, exhaustive evaluation of comparison-only predicates over the finite set of ordering classes"),
     "C12": dict(
         text="Rules C12.1-C12.6 on ptree*.c: dispatch triples per tree type; every descent loop (lookup, 3 inserts, 3 removes) calls the "
@@ -128,7 +130,8 @@ CLAIMED = {
              "with the given pair is linked in (FALSE on replace and allocation failure), remove TRUE exactly when one node is unlinked and "
              "freed; nnodes changes only on those TRUE results and once per node in clear; the Morris traversal counts its thread links, "
              "returns early only with the counter zero, in a counter at least as wide as nnodes, and stops calling back after a stop request; "
-             "C12.6 link surgery: a child link replaced under the test parent->F == node is parent->F on the true edge and the other link on the false edge. " + DECIDES % "C12",
+             "C12.6 link surgery: a child link replaced under the test parent->F == node is parent->F on the true edge and the other link on the false edge; "
+             "C12.1 also: keys, values and comparator data are opaque - never tested, compared or dereferenced in the public operations and the variants. " + DECIDES % "C12",
         technique="term-valued dataflow with loop widening over the variant functions, guard dataflow for orientation/count/traversal discipline, switch-table recovery"),
     "C13": dict(
         text="Rules C13.1-C13.5 on ptree-rb.c / ptree-avl.c (C13.5: no path reads a node - its colour or factor for a repaint or retrace decision, its links - after handing it to p_free). C13.2/C13.3 (shape analysis by materialisation, all local shapes, symbolic heights): "
@@ -138,7 +141,7 @@ CLAIMED = {
              "or continues one level up with the loop invariant re-established (induction). C13.1/C13.4 (term flow): every insertion/removal path "
              "reaches the fix-up with its entry invariant (new node RED / factor 0, NULL children, parent set, linked; retrace from the leaf before "
              "unlinking or from the relinked child; fix-up before unlink on the childless-black path; an only child replacing a black node is "
-             "painted black; outside the retracing helpers a balance factor is only ever set to 0). The numeric comparison bounds follow from the invariants by the textbook argument and are not re-derived. " + DECIDES % "C13",
+             "painted black; outside the retracing helpers a balance factor is only ever set to 0, and only on a node allocated in the same call). The numeric comparison bounds follow from the invariants by the textbook argument and are not re-derived. " + DECIDES % "C13",
         technique="parametric shape analysis (materialisation/focus over a local heap with summary subtrees carrying symbolic black heights / heights, induction over the fix-up loop, helpers inlined) plus must-pass-through rules on term-flow return states"),
     "C14": dict(
         text="Rules C14.1-C14.5 on ptree*.c: on every successful removal path (all three variants) the key and value of the node whose key "
@@ -146,7 +149,7 @@ CLAIMED = {
              "not survive in another node, one node is freed; the replace path hands the old pair to the notifiers before storing the new one; "
              "clear destroys every released node's pair first and free goes through clear; every notifier call is NULL-guarded; the library "
              "never frees or writes through user keys/values; no path reads or re-releases a node after handing it to p_free (the notifiers get what the "
-             "node held). " + DECIDES % "C14",
+             "node held); in the remove functions nothing touches a link, colour or factor and no balancing runs after the first notifier call. " + DECIDES % "C14",
         technique="abstract interpretation of node/pair identity (term flow with widened descent and predecessor loops) with exit obligations on notifier arguments"),
     "C15": dict(
         text="Rules C15.1-C15.6 on phashtable.c / plist.c: no key-dependent arithmetic in a signed type in the bucket computation; every bucket "
@@ -166,7 +169,8 @@ CLAIMED = {
              "key and release the looked-up copy; each line string is freed and the file closed on every path; typed getters use the "
              "documented conversion primitive and radix and return the converted number through no narrower type; the four line patterns, their order and conversion counts are the documented grammar "
              "table and the header pattern is applied only to lines that start with '[' and end with ']'; section names, keys and values reach "
-             "their constructors only as trimmed text and the empty-quotes normalisation is made on the trimmed value; a line byte compared with a constant is read through a type that can hold the constant (C16.8). What the scanf patterns accept "
+             "their constructors only as trimmed text and the empty-quotes normalisation is made on the trimmed value; a line byte compared with a constant is read through a type that can hold the constant, and the byte-order-mark tests skip exactly the length of the "
+             "standard mark the line starts with (C16.8, byte-test form only); a hand-built string is terminated before it is read as one (C16.1). What the scanf patterns accept "
              "beyond that table agreement is not decided. " + DECIDES % "C16",
         technique="format-string conversion bounds against array types, single-producer who-calls rule, restricted guard dataflow typestate for line/file/section, format-table agreement with edge-cut dominance of the header guards, raw/trimmed typestate of the text buffers"),
     "C17": dict(
@@ -174,7 +178,7 @@ CLAIMED = {
              "(offsets and sizes from the record layouts); to_native and new_from_native copy the same (object field, native byte range) "
              "pairs per family, port byte-swapped both ways and nothing else, family constants agree; get_native_size and to_native's guard "
              "use the same structure sizes, and new_from_native treats its length as a lower bound only (a longer buffer, as the kernel reports for sockaddr_storage, is accepted); text path restricted to numeric hosts with the addrinfo result freed on every path, and present "
-             "(after preprocessing) whenever the unit's compile flags provide getaddrinfo and a scope id; is_any compares with 0.0.0.0 and is_loopback tests 127.0.0.0/8 on a byte-swapped copy (C17.5). " + DECIDES % "C17",
+             "(after preprocessing) whenever the unit's compile flags provide getaddrinfo and a scope id; is_any compares with 0.0.0.0 and is_loopback tests 127.0.0.0/8 on a byte-swapped copy carrying all 32 bits (C17.5). " + DECIDES % "C17",
         technique="guard dataflow lower bounds against record layouts, sibling field-pair agreement, constant-table agreement"),
     "C18": dict(
         text="Rules C18.1-C18.6 over every function of the 37 analysed units that acquires a resource (every allocation site is treated "
@@ -188,10 +192,10 @@ CLAIMED = {
              "objects is not decided. " + DECIDES % "C18",
         technique="path-sensitive resource typestate with inferred acquire/release/ownership summaries; use-after-release typestate; who-may-call rule with positive control; bottom-up NULL-need summaries of destructors matched against per-path member facts at unwinding calls"),
     "C20": dict(
-        text="Rules C20.1-C20.5: ownership table inferred from the constructors (fields filled from acquiring calls) checked against each "
-             "object's free function; every descriptor/handle obtained in a function is closed once, owned by the returned object or "
+        text="Rules C20.1-C20.5: ownership table inferred from the constructors (fields filled from acquiring calls, list heads kept in objects) checked against each "
+             "object's free function on every path where the field may be valid; every free function hands its non-NULL argument to p_free on every path; every descriptor/handle obtained in a function is closed once, owned by the returned object or "
              "returned on every path, and never closed twice - a descriptor a constructor was given as a parameter is not closed by the constructor's failure exits when its callers close it too; munmap gets the mapped length; allocations held only in locals are released "
-             "on every path including success paths; IPC names are unlinked by the free path exactly when owned and the ownership flag is "
+             "on every path, success and failure exits alike; IPC names are unlinked by the free path exactly when owned and the ownership flag is "
              "set before any later step of the creation can fail. /proc-level accounting over call sequences is not decided. " + DECIDES % "C20",
         technique="inferred ownership table vs. release sets of free functions; path-sensitive resource typestate for handles and temporaries; guard dataflow for the ownership flag"),
 }
